@@ -147,15 +147,25 @@ func discharge(reps []*funcReport, workDir string, timeout time.Duration, need i
 			jobs = append(jobs, job{r, o})
 		}
 	}
-	par := 6
-	sem := make(chan struct{}, par)
+	// weighted parallelism: a race occupies three solver processes, a cover one; 16 cores
+	sem := make(chan struct{}, 18)
 	var wg sync.WaitGroup
 	for _, j := range jobs {
 		wg.Add(1)
-		sem <- struct{}{}
-		go func(j job) {
+		w := 3
+		if j.o.Cover {
+			w = 1
+		}
+		for k := 0; k < w; k++ {
+			sem <- struct{}{}
+		}
+		go func(j job, w int) {
 			defer wg.Done()
-			defer func() { <-sem }()
+			defer func() {
+				for k := 0; k < w; k++ {
+					<-sem
+				}
+			}()
 			q := j.rep.Session.query(j.o, j.rep.Session.P.anyWFDef()+litDefs()+j.rep.SpecDefs)
 			file := writeQuery(workDir, j.o.Name, q)
 			j.o.Query = file
@@ -204,7 +214,7 @@ func discharge(reps []*funcReport, workDir string, timeout time.Duration, need i
 					j.o.Model = r.Values
 				}
 			}
-		}(j)
+		}(j, w)
 	}
 	wg.Wait()
 }
